@@ -9,6 +9,7 @@ import Cx.DriverCaps
 import Cx.DriverDfa
 import Cx.DriverUtf8Range
 import Cx.DriverRev
+import Cx.DriverRevSuffix
 /-! cxdrv — reads requests from stdin (one per line), writes one answer per line. -/
 
 def tokens (line : String) : List String := (line.trimAscii.toString.splitOn " ").filter (· ≠ "")
@@ -16,7 +17,7 @@ def tokens (line : String) : List String := (line.trimAscii.toString.splitOn " "
 /-- model-specific handlers first, then the core protocol -/
 def handlers : List (List String → Option String) :=
   [Cx.DriverCompile.handle?, Cx.DriverLit.handle?, Cx.DriverPike.handle?, Cx.DriverFast.handle?, Cx.DriverCost.handle?,
-   Cx.DriverConfig.handle?, Cx.DriverCaps.handle?, Cx.DriverDfa.handle?, Cx.DriverUtf8Range.handle?, Cx.DriverRev.handle?]
+   Cx.DriverConfig.handle?, Cx.DriverCaps.handle?, Cx.DriverDfa.handle?, Cx.DriverUtf8Range.handle?, Cx.DriverRev.handle?, Cx.DriverRevSuffix.handle?]
 
 def answer (line : String) : String :=
   let toks := tokens line
